@@ -455,6 +455,7 @@ func (c *Client) Release() {
 	}
 	h.mu.Unlock()
 	c.mu.Unlock()
+	verifYield("Client.Release:wait-done")
 	<-h.done
 	h.Shutdown()
 }
@@ -561,6 +562,7 @@ func (cp *ClientPromise) Fulfill(c *Client) {
 		rh.refs += refs
 		rh.mu.Unlock()
 	}
+	verifYield("ClientPromise.Fulfill:wait-done")
 	<-cp.h.done
 	cp.h.Shutdown()
 }
